@@ -142,6 +142,8 @@ func applyXForm(db *gorm.DB, op *Op) (*gorm.DB, bool) {
 			return db.Select("id", 42), true
 		case "strslice":
 			return db.Select("id", []string{"c1", "c3"}), true
+		case "exprthenslice": // the column list replaces an earlier SELECT expression
+			return db.Select("id, c1 + ? AS c1", n).Select([]string{"id", "c2"}), true
 		case "star":
 			return db.Select("*"), true
 		case "tstar":
@@ -248,7 +250,7 @@ func xopExtra(r *lib.Rng) *Op {
 	case 5, 6:
 		return &Op{K: "x_order", Names: []string{col()}, Re: r.Bool(), Form: lib.Pick(r, []string{"col", "orderby", "expr", "reorder"})}
 	case 7, 8:
-		return &Op{K: "x_select", N: n, Form: lib.Pick(r, []string{"slice", "qargs", "named", "mixed", "strslice", "star", "tstar"})}
+		return &Op{K: "x_select", N: n, Form: lib.Pick(r, []string{"slice", "qargs", "named", "mixed", "strslice", "star", "tstar", "exprthenslice"})}
 	case 9:
 		return &Op{K: "x_omit", Form: lib.Pick(r, []string{"comma", "assoc"})}
 	case 10, 11, 12:
